@@ -203,6 +203,37 @@ func genMap(t *rapid.T, self int, depth int, o GenOpts, needLink bool) *Val {
 	return v
 }
 
+func genTwin(t *rapid.T, self int) *Val {
+	la := rapid.IntRange(0, self-1).Draw(t, "twin-a")
+	lb := rapid.IntRange(0, self-1).Draw(t, "twin-b")
+	inner := func(l int) *Val {
+		if rapid.Bool().Draw(t, "twin-inner-list") {
+			return &Val{K: "list", Vals: []*Val{{K: "link", L: l}}}
+		}
+		return &Val{K: "map", Keys: []string{rapid.SampledFrom(keyAlphabet).Draw(t, "twin-ik")}, Vals: []*Val{{K: "link", L: l}}}
+	}
+	var c1, c2 *Val
+	if rapid.Bool().Draw(t, "twin-list") {
+		pad := rapid.IntRange(0, 2).Draw(t, "twin-pad")
+		c1, c2 = &Val{K: "list"}, &Val{K: "list"}
+		for k := 0; k < pad; k++ {
+			c1.Vals = append(c1.Vals, &Val{K: "int", I: int64(k)})
+			c2.Vals = append(c2.Vals, &Val{K: "str", S: "x"})
+		}
+		c1.Vals = append(c1.Vals, &Val{K: "link", L: la})
+		c2.Vals = append(c2.Vals, inner(lb))
+	} else {
+		k := rapid.SampledFrom(keyAlphabet).Draw(t, "twin-k")
+		c1 = &Val{K: "map", Keys: []string{k}, Vals: []*Val{{K: "link", L: la}}}
+		c2 = &Val{K: "map", Keys: []string{k}, Vals: []*Val{inner(lb)}}
+	}
+	if rapid.IntRange(0, 2).Draw(t, "twin-top-list") == 0 {
+		return &Val{K: "list", Vals: []*Val{c1, c2}}
+	}
+	// dag-cbor orders map keys by length then bytes: "a" < "b"
+	return &Val{K: "map", Keys: []string{"a", "b"}, Vals: []*Val{c1, c2}}
+}
+
 // GenDAG draws a DAG spec. Block 0 is always a leaf.
 func GenDAG(t *rapid.T, o GenOpts) DAG {
 	if o.MaxBlocks == 0 {
@@ -222,6 +253,13 @@ func GenDAG(t *rapid.T, o GenOpts) DAG {
 			continue
 		}
 		var node *Val
+		if i >= 2 && rapid.IntRange(0, 7).Draw(t, "twin") == 0 {
+			// two sibling inline containers: the first holds a link under some key / index, the second holds,
+			// under the same key / index, a deeper container with another link (the shape on which "is the
+			// next load below the link the responder did not follow?" must compare whole paths)
+			d.Blocks = append(d.Blocks, Block{Node: genTwin(t, i)})
+			continue
+		}
 		if rapid.IntRange(0, 3).Draw(t, "toplist") == 0 {
 			node = &Val{K: "list"}
 			m := rapid.IntRange(1, 4).Draw(t, "tl")
